@@ -93,7 +93,7 @@ _NUM = (int, float, Fraction, np.floating, np.integer, bool, np.bool_)
 
 
 def is_sym(x):
-    return isinstance(x, (SR, SB, SC))
+    return isinstance(x, (SR, SB, SC)) or type(x).__name__ == 'SF'
 
 
 def to_frac(x):
@@ -145,9 +145,9 @@ def _scalar_array_ufunc(self, ufunc, method, *inputs, **kw):
     from .symarr import SymArr, wrap0, EW
     if ufunc not in EW:
         # one of the engine's own frompyfunc ufuncs received a bare scalar: hide it in a 0-d object array
-        ins = [wrap0(x) if isinstance(x, (SR, SB, SC)) else x for x in inputs]
+        ins = [wrap0(x) if is_sym(x) else x for x in inputs]
         return getattr(ufunc, method)(*ins, **kw)
-    ins = [wrap0(x).view(SymArr) if isinstance(x, (SR, SB, SC)) else x for x in inputs]
+    ins = [wrap0(x).view(SymArr) if is_sym(x) else x for x in inputs]
     first = [x for x in ins if isinstance(x, SymArr)][0]
     res = SymArr.__array_ufunc__(first, ufunc, method, *ins, **kw)
     if isinstance(res, np.ndarray) and res.ndim == 0:
